@@ -374,7 +374,6 @@ static void explore(const Config& c, int depth, bool crossCheck) {
     R.transitions++;
     j = judgeResolve(c, w, base + ";ops=", nullptr);
     R.tracesValidated++;
-    R.distinct("cfg#" + c.desc);
   }
   if (!j.explorable) { R.count(j.ok ? "configurations_not_resolvable_as_expected" : "configurations_with_resolution_violation"); return; }
   R.count("configurations_explored");
@@ -442,6 +441,7 @@ static void explore(const Config& c, int depth, bool crossCheck) {
         stateCount++;
         g_states++;
         R.state(c.desc + "#" + st.canon);
+        R.distinct(c.desc + "#" + st.canon);
         if (R.samples.size() < 4 && d == 3) R.sample(c.desc + " ops=" + opsStr(h) + " -> state " + st.canon);
         Node n;
         n.h = h;
